@@ -84,17 +84,23 @@ def run_r1(chk: Check, prog: Program) -> None:
              "its parent, grandparent slot updated, root no-op", minimum=20)
     m = prog.func("tree", "BinaryTreeNode.rotate")
 
-    def body(it: Interp):
-        node = it.new_summary(frozenset(["BinaryTreeNode"]), "arg")
-        it.arg = node
-        return it.call_function(m, [node], {})
-
-    results = explore(prog, body, {"tree_mode": "binary", "max_updepth": 2})
+    # one node class throughout, and a tree that mixes two node classes (rotation must not depend on the classes of the
+    # node and its neighbours: every neighbour independently ranges over both)
+    universes = [("", frozenset(["BinaryTreeNode"])), ("mixed classes: ", frozenset(["AddExpression", "MultiplyExpression"]))]
+    results = []
+    for tag, kinds in universes:
+        def body(it: Interp, kinds=kinds):
+            node = it.new_summary(kinds, "arg")
+            it.arg = node
+            return it.call_function(m, [node], {})
+        for p in explore(prog, body, {"tree_mode": "binary", "max_updepth": 2}):
+            p.tag = tag
+            results.append(p)
     n_cfg = 0
     for p in results:
         it = p.interp
         arg = it.arg.cid
-        cfg = p.cond
+        cfg = p.tag + p.cond
         n_cfg += 1
         key = "C15.R1:BinaryTreeNode.rotate"
         if p.outcome != "return":
